@@ -755,3 +755,8 @@ CHECKS["C02"]["text"] += (
 CHECKS["C20"]["text"] += (
     " The same values held in memory (dict-based dataset) are observed "
     "through a hierarchy child whose parent filters nothing.")
+CHECKS["C01"]["text"] += (
+    " Two channels of the trace feature written separately are features of "
+    "their own in the histories (all modes).")
+CHECKS["C16"]["text"] += (
+    " After reset_filter() every event is eligible at once.")
